@@ -86,6 +86,27 @@ def render(body, lexer, ascent, recovery, generic):
     return "\n".join(L + body) + "\n"
 
 
+MACRO_TYPES = """grammar;
+Id: String = r"[a-z]+" => <>.to_string();
+Same<T>: T = <T>;
+Boxed<T>: Box<T> = <t:T> => Box::new(t);
+Twice<T>: (T, T) = <a:T> <b:T> => (a, b);
+Many<T>: Vec<T> = <v:T*> => v;
+Leak<T>: &'static T = <t:T> => { let r = Box::leak(Box::new(t)); &*r };
+LeakMut<T>: &'static mut T = <t:T> => Box::leak(Box::new(t));
+Nested<T>: Vec<(&'static T, Option<Box<T>>)> = <a:Leak<T>> <b:Boxed<T>?> => vec![(a, b)];
+pub S: usize = {
+    "same" <a:Same<Id>> "," => a.len(),
+    "boxed" <a:Boxed<Id>> "," => a.len(),
+    "twice" <a:Twice<Id>> "," => a.0.len() + a.1.len(),
+    "many" <a:Many<Id>> "," => a.len(),
+    "leak" <a:Leak<Id>> <b:Leak<Id>*> "," => a.len() + b.len(),
+    "leakmut" <a:LeakMut<Id>> "," => { a.push('x'); a.len() },
+    "nested" <a:Nested<Id>> "," => a.len(),
+};
+"""
+
+
 def run(tier):
     t0 = time.time()
     rep = vlib.Reporter(PROP)
@@ -118,6 +139,21 @@ def run(tier):
                 u = {"name": name, "rs": rs, "parsers": ["S"] if (lexer == "intern") else [],
                      "args": '"n", &7u8, ' if generic == 1 else "&|n: usize| n as u64, " if generic == 2 else ""}
                 units.append(u); meta[name] = text
+    # macros whose DECLARED types mention their parameters in every position (plain, inside generic types,
+    # tuples, and under references): the types recorded for the instantiated nonterminals must substitute them
+    for v, attr in (("t", ""), ("a", "#[recursive_ascent] ")):
+        text = MACRO_TYPES.replace("grammar;", attr + "grammar;", 1)
+        st, rs, out = sgb.generate(lal, "c19_mty" + v, text)
+        ncase += 1
+        if st == "panic":
+            nbad += 1
+            rep.violation("panicked", {"what": "lalrpop panicked", "grammar_text": text, "output": out[-800:]})
+        elif st != "ok":
+            nbad += 1
+            rep.violation("well-typed-macro-grammar-rejected", {"what": "a grammar whose macros declare parameterised types was rejected", "grammar_text": text, "output": out[-1200:]})
+        else:
+            dist["accepted"] += 1
+            units.append({"name": "mty" + v, "rs": rs, "parsers": ["S"], "args": ""}); meta["mty" + v] = text
     dist["modules"] = len(units)
     # compile in batches; on failure bisect to the offending module(s)
     def compiles(us):
